@@ -1,0 +1,189 @@
+//go:build verif
+
+package index
+
+import (
+	"sync"
+
+	"github.com/RoaringBitmap/roaring"
+	segment "github.com/blugelabs/bluge_segment_api"
+)
+
+// Verification instrumentation (build tag "verif" only).  The functions below are called
+// from single added lines in introducer.go and persister.go; without the tag they are the
+// empty functions of verif_trace_off.go.
+
+// VerifSeg is the physical description of one segment snapshot.
+type VerifSeg struct {
+	ID        uint64
+	Nil       bool // a nil *segmentSnapshot (only in merge "old" maps)
+	Persisted bool
+	Count     uint64
+	Deleted   []uint32
+	Docs      []string // per document number: "<_id>\x00<stored field v>"
+}
+
+// VerifEvent is one step of a writer, reported in the order the steps take effect.
+type VerifEvent struct {
+	Kind    string // root | intro-segment | intro-merge | grab | persisted
+	Writer  *Writer
+	Creator string
+	Epoch   uint64
+	Segs    []VerifSeg
+	// intro-segment
+	IntroID    uint64
+	IDTerms    []string
+	Obsoletes  map[uint64][]uint32
+	NewDocs    []string
+	HasData    bool
+	// intro-merge
+	MergeID   uint64
+	Old       []VerifSeg
+	OldNew    map[uint64][]uint64
+	New       *VerifSeg
+	// grab / persisted
+	NumAcks      int
+	NumCallbacks int
+	Err          error
+}
+
+// VerifTrace, when set, receives every event.  It is called with internal locks held: it
+// must not call back into the writer.
+var VerifTrace func(ev *VerifEvent)
+
+var verifDocCache sync.Map // *segmentWrapper -> []string
+
+func verifDocs(sw *segmentWrapper) []string {
+	if sw == nil {
+		return nil
+	}
+	if v, ok := verifDocCache.Load(sw.Segment); ok {
+		return v.([]string)
+	}
+	n := sw.Count()
+	out := make([]string, n)
+	for i := uint64(0); i < n; i++ {
+		var id, v string
+		_ = sw.VisitStoredFields(i, func(field string, value []byte) bool {
+			switch field {
+			case "_id":
+				id = string(value)
+			case "v":
+				v = string(value)
+			}
+			return true
+		})
+		out[i] = id + "\x00" + v
+	}
+	verifDocCache.Store(sw.Segment, out)
+	return out
+}
+
+func verifBitmap(b *roaring.Bitmap) []uint32 {
+	if b == nil {
+		return nil
+	}
+	return b.ToArray()
+}
+
+func verifSeg(ss *segmentSnapshot) VerifSeg {
+	if ss == nil {
+		return VerifSeg{Nil: true}
+	}
+	return VerifSeg{
+		ID:        ss.id,
+		Persisted: ss.segment.Persisted(),
+		Count:     ss.segment.Count(),
+		Deleted:   verifBitmap(ss.deleted),
+		Docs:      verifDocs(ss.segment),
+	}
+}
+
+func verifSegs(sn *Snapshot) []VerifSeg {
+	if sn == nil {
+		return nil
+	}
+	rv := make([]VerifSeg, len(sn.segment))
+	for i, ss := range sn.segment {
+		rv[i] = verifSeg(ss)
+	}
+	return rv
+}
+
+func verifRootReplaced(s *Writer, newSnapshot *Snapshot) {
+	if VerifTrace == nil {
+		return
+	}
+	ev := &VerifEvent{Kind: "root", Writer: s}
+	if newSnapshot != nil {
+		ev.Creator = newSnapshot.creator
+		ev.Epoch = newSnapshot.epoch
+		ev.Segs = verifSegs(newSnapshot)
+	} else {
+		ev.Creator = "nil"
+	}
+	VerifTrace(ev)
+}
+
+func verifSegmentIntroducing(s *Writer, next *segmentIntroduction) {
+	if VerifTrace == nil {
+		return
+	}
+	ev := &VerifEvent{Kind: "intro-segment", Writer: s, IntroID: next.id, Obsoletes: map[uint64][]uint32{}}
+	for _, t := range next.idTerms {
+		ev.IDTerms = append(ev.IDTerms, string(t.Term()))
+	}
+	for id, b := range next.obsoletes {
+		ev.Obsoletes[id] = verifBitmap(b)
+		if ev.Obsoletes[id] == nil {
+			ev.Obsoletes[id] = []uint32{}
+		}
+	}
+	if next.data != nil {
+		ev.HasData = true
+		ev.NewDocs = verifDocs(next.data)
+	}
+	VerifTrace(ev)
+}
+
+func verifMergeIntroducing(s *Writer, m *segmentMerge) {
+	if VerifTrace == nil {
+		return
+	}
+	ev := &VerifEvent{Kind: "intro-merge", Writer: s, MergeID: m.id, OldNew: map[uint64][]uint64{}}
+	for id, ss := range m.old {
+		vs := verifSeg(ss)
+		vs.ID = id
+		ev.Old = append(ev.Old, vs)
+	}
+	for id, tbl := range m.oldNewDocNums {
+		ev.OldNew[id] = append([]uint64{}, tbl...)
+	}
+	if m.new != nil {
+		ns := VerifSeg{ID: m.id, Persisted: m.new.Persisted(), Count: m.new.Count(), Docs: verifDocs(m.new)}
+		ev.New = &ns
+	}
+	VerifTrace(ev)
+}
+
+func verifPersisterGrab(s *Writer, snapshot *Snapshot, nAcks, nCallbacks int) {
+	if VerifTrace == nil || snapshot == nil {
+		return
+	}
+	VerifTrace(&VerifEvent{Kind: "grab", Writer: s, Epoch: snapshot.epoch, Segs: verifSegs(snapshot),
+		NumAcks: nAcks, NumCallbacks: nCallbacks})
+}
+
+func verifPersisted(s *Writer, snapshot *Snapshot, err error, nAcks int) {
+	if VerifTrace == nil {
+		return
+	}
+	VerifTrace(&VerifEvent{Kind: "persisted", Writer: s, Epoch: snapshot.epoch, Err: err, NumAcks: nAcks})
+}
+
+// VerifSnapshotInfo describes a reader obtained from Writer.Reader / OpenReader.
+func VerifSnapshotInfo(sn *Snapshot) (epoch uint64, segs []VerifSeg) {
+	return sn.epoch, verifSegs(sn)
+}
+
+var _ segment.Segment
